@@ -777,6 +777,40 @@ fn expect_same(nat: Nat, px: [V; 4], p: Prec) -> [u32; 4] {
     }
 }
 
+fn float_field_max(k: K) -> Q {
+    match k {
+        K::H16 => Q::int(65504),
+        K::F11 => Q::int(65024),
+        _ => Q::int(64512),
+    }
+}
+
+/// A finite input beyond the finite range of a float field: the clamped input is the largest finite value of the
+/// input's side; rounding may also overflow to the infinity of that side. Anything else — in particular the other
+/// side — is farther than half a step from the clamped input. Unsigned fields clamp negative input to 0.
+fn beyond_range(o: &mut Oracle, k: K, neg: bool, d: FC) {
+    let signed = k == K::H16;
+    let maxf = float_field_max(k);
+    let ok = match (signed, neg) {
+        (_, false) => d == FC::PInf || d == FC::Fin(maxf),
+        (true, true) => d == FC::NInf || d == FC::Fin(Q::int(0).sub(maxf)),
+        (false, true) => d == FC::Fin(Q::int(0)),
+    };
+    if !ok {
+        o.say(format!(
+            "beyond-range: a {} finite input beyond the field's range decoded as {}",
+            if neg { "negative" } else { "positive" },
+            match d {
+                FC::Fin(q) => q.show(),
+                FC::PInf => "+Inf".into(),
+                FC::NInf => "-Inf".into(),
+                FC::Nan => "NaN".into(),
+                _ => "?".into(),
+            }
+        ));
+    }
+}
+
 /// half quantisation step of a float-like field around the ideal value c (>= 0 unless H16)
 fn half_ulp(k: K, c: Q) -> Q {
     // (mantissa bits, minimum normal exponent)
@@ -916,15 +950,13 @@ fn check_nearest(o: &mut Oracle, f: &Fm, c: usize, k: K, v: V, dec: u32, at: usi
                         fail(o, "|x| < 2^-40 must encode to zero".into());
                     }
                 }
-                FC::Huge(_) => {} // beyond the finite range of the field: not claimed (notes, limits)
+                FC::Huge(neg) => beyond_range(o, k, neg, d),
                 FC::Fin(q) => {
-                    let maxf = match k {
-                        H16 => Q::int(65504),
-                        F11 => Q::int(65024),
-                        _ => Q::int(64512),
-                    };
+                    let maxf = float_field_max(k);
                     if maxf.lt(q.abs()) {
-                        return; // beyond the finite range: not claimed
+                        // beyond the finite range: whether it saturates or overflows to infinity is not claimed, the
+                        // side is
+                        return beyond_range(o, k, q.n < 0, d);
                     }
                     let want = if !signed && q.n < 0 { Q::int(0) } else { q };
                     let FC::Fin(dq) = d else {
